@@ -1,1 +1,2 @@
 pub mod base;
+pub mod c03;
